@@ -362,3 +362,137 @@ def _c08():
 
 
 _c08()
+
+
+# ----------------------------------------------------------------------------------------------- C14 / C15
+def _c14():
+    R("c14-chk-name-weakened", S, '        if name in self._g.attrs["nodes"].keys() or (\n            name in self._g.attrs["rails"].values()\n        ):', '        if name in self._g.attrs["nodes"].keys() and (\n            name in self._g.attrs["rails"].values()\n        ):', fires=["C14"])
+    R("c14-rail-vs-names-dropped", S, '            if (\n                rail in self._g.attrs["nodes"].keys()\n                or rail in self._g.attrs["rails"].values()\n            ):', '            if rail in self._g.attrs["rails"].values():', fires=["C14"])
+    R("c14-rail-equals-name-allowed", S, '            if name == rail:\n                raise ValueError("Component name and rail name cannot be the same!")\n            if (', '            if (', fires=["C14"])
+    R("c14-add-comp-no-dup-check", S, '            if len(parent) > len(set(parent)):\n                raise ValueError("parent paramenter contains duplicates!")\n', '', fires=["C14"])
+    R("c14-add-comp-multi-parent-any-type", S, '            if comp._component_type != _ComponentTypes.PMUX:\n                raise ValueError("only PMux component can have multiple inputs!")\n', '', fires=["C14"])
+    R("c14-add-comp-child-type-first-parent-only", S, "        pidx = []\n        for p in plist:\n            pidx += [self._get_index(p)]\n            if not comp._component_type in self._g[pidx[-1]]._child_types:", "        pidx = []\n        for p in plist:\n            pidx += [self._get_index(p)]\n            if not comp._component_type in self._g[pidx[0]]._child_types:", fires=["C14"])
+    R("c14-add-comp-single-pmux-only-for-lists", S, '        if comp._component_type.name == "PMUX":\n            for key in self._g.attrs["nodes"]:', '        if comp._component_type.name == "PMUX" and isinstance(parent, list):\n            for key in self._g.attrs["nodes"]:', fires=["C14"])
+    R("c14-add-source-type-check-dropped", S, '        if not isinstance(source, Source):\n            raise ValueError("Component must be a source!")\n\n        cidx = self._g.add_node(source)', '        cidx = self._g.add_node(source)', fires=["C14"])
+    R("c14-change-comp-source-check-dropped", S, '            if not isinstance(comp, Source):\n                raise ValueError("Source cannot be changed to other type!")\n', '            pass\n', fires=["C14"])
+    R("c14-change-comp-parent-check-dropped", S, '''        if parents[eidx] != -1:
+            if not comp._component_type in self._g[parents[eidx][0]]._child_types:
+                raise ValueError(
+                    "Parent does not allow child of type {}!".format(
+                        comp._component_type.name
+                    )
+                )
+''', '', fires=["C14"])
+    R("c14-del-comp-last-source-allowed", S, '            if len(self._get_sources()) < 2:\n                raise ValueError("Cannot delete the last source component!")\n', '', fires=["C14"])
+    R("c14-del-comp-source-children-orphaned", S, '            if not del_childs:\n                raise ValueError("Source must be deleted with its childs")\n', '', fires=["C14"])
+    R("c14-rloss-admits-source-child", C, '''    def _child_types(self):
+        """Defines allowable Loss child component types"""
+        et = list(_ComponentTypes)
+        et.remove(_ComponentTypes.SOURCE)
+        return et
+
+    _cparams = {
+        "name": "rloss",''', '''    def _child_types(self):
+        """Defines allowable Loss child component types"""
+        et = list(_ComponentTypes)
+        return et
+
+    _cparams = {
+        "name": "rloss",''', fires=["C14"])
+    R("c14-relink-to-all-parents", S, "                for c in childs[eidx]:\n                    self._g.add_edge(parents[eidx][0], c, None)", "                for c in childs[eidx]:\n                    for q in parents[eidx]:\n                        self._g.add_edge(q, c, None)", fires=["C14"])
+    R("c15-add-comp-type-check-after-add", S, '''        # can only have one pmux
+        if comp._component_type.name == "PMUX":
+            for key in self._g.attrs["nodes"]:
+                if self._g[self._g.attrs["nodes"][key]]._component_type.name == "PMUX":
+                    raise ValueError("a system can only have one PMux")
+        # all ok, add component
+        cidx = self._g.add_child(pidx[0], comp, None)''', '''        # all ok, add component
+        cidx = self._g.add_child(pidx[0], comp, None)
+        # can only have one pmux
+        if comp._component_type.name == "PMUX":
+            for key in self._g.attrs["nodes"]:
+                if self._g[self._g.attrs["nodes"][key]]._component_type.name == "PMUX":
+                    raise ValueError("a system can only have one PMux")''', fires=["C15"])
+    R("c15-change-comp-validate-after-replace", S, '''        # check that component allows its existing childs
+        childs = self._get_childs()''', '''        self._g[eidx] = comp
+        # check that component allows its existing childs
+        childs = self._get_childs()''', fires=["C15"])
+    R("c15-set-comp-phases-store-before-check", S, '''        if isinstance(self._g[cidx], RLoss) or isinstance(self._g[cidx], VLoss):
+            raise ValueError("Loss components does not support load phases!")
+
+        self._g.attrs["phase_conf"][name] = phase_conf''', '''        self._g.attrs["phase_conf"][name] = phase_conf
+        if isinstance(self._g[cidx], RLoss) or isinstance(self._g[cidx], VLoss):
+            raise ValueError("Loss components does not support load phases!")''', fires=["C15"])
+    R("c15-set-sys-phases-store-first", S, '''        if len(list(phases.keys())) < 2 and phases != {}:
+            raise ValueError("There must be at least two phases!")
+        if "N/A" in list(phases.keys()):
+            raise ValueError('"N/A" is a reserved name!')
+        self._g.attrs["phases"] = phases''', '''        self._g.attrs["phases"] = phases
+        if len(list(phases.keys())) < 2 and phases != {}:
+            raise ValueError("There must be at least two phases!")
+        if "N/A" in list(phases.keys()):
+            raise ValueError('"N/A" is a reserved name!')''', fires=["C15"])
+    R("c15-chk-name-registers-name", S, '''            ):
+                raise ValueError('Rail name "{}" is already used!'.format(name))
+
+        return True''', '''            ):
+                raise ValueError('Rail name "{}" is already used!'.format(name))
+        self._g.attrs["groups"][name] = ""
+
+        return True''', fires=["C15"])
+    R("eq-c14-chk-name-inlined-in-add-source", S, '        self._chk_name(source._params["name"], rail)\n        if not isinstance(source, Source):', '        if source._params["name"] in self._g.attrs["nodes"] or source._params["name"] in self._g.attrs["rails"].values():\n            raise ValueError("name used")\n        if rail != "" and (rail == source._params["name"] or rail in self._g.attrs["nodes"] or rail in self._g.attrs["rails"].values()):\n            raise ValueError("rail used")\n        if not isinstance(source, Source):', silent=["C14", "C15"])
+    R("eq-c14-checks-reordered", S, '''        self._chk_name(source._params["name"], rail)
+        if not isinstance(source, Source):
+            raise ValueError("Component must be a source!")
+''', '''        if not isinstance(source, Source):
+            raise ValueError("Component must be a source!")
+        self._chk_name(source._params["name"], rail)
+''', silent=["C14", "C15"])
+
+
+_c14()
+
+
+# ----------------------------------------------------------------------------------------------- C16
+def _c16():
+    R("c16-del-comp-forgets-groups", S, '''                del [self._g.attrs["phase_conf"][self._g[c]._params["name"]]]
+                del [self._g.attrs["groups"][self._g[c]._params["name"]]]''', '''                del [self._g.attrs["phase_conf"][self._g[c]._params["name"]]]''', fires=["C16"])
+    R("c16-change-comp-keeps-old-phase-conf", S, '''        del [self._g.attrs["phase_conf"][name]]
+        self._g.attrs["phase_conf"][comp._params["name"]] = {}''', '''        self._g.attrs["phase_conf"][comp._params["name"]] = {}''', fires=["C16"])
+    R("c16-add-source-no-order-entry", S, '''        self._g.attrs["rails"][source._params["name"]] = rail
+        self._g.attrs["pnames"][cidx] = []
+
+    def change_comp''', '''        self._g.attrs["rails"][source._params["name"]] = rail
+
+    def change_comp''', fires=["C16"])
+    R("c16-sys-vars-sized-by-count", S, "        vn = max(self._get_nodes()) + 1  # highest node index + 1", "        vn = len(self._get_nodes())  # number of nodes", fires=["C16"])
+    R("c16-save-skips-rel-update", S, '        self._rel_update()\n        sys = {\n            "system": {', '        sys = {\n            "system": {', fires=["C16"])
+    R("c16-params-columns-swapped", S, '            res["ig (A)"] = ig\n            res["iq (A)"] = iq', '            res["ig (A)"] = iq\n            res["iq (A)"] = ig', fires=["C16"])
+    R("c16-limit-column-wrong-key", S, '                lpo += [self._filt_lim(n, "po")]', '                lpo += [self._filt_lim(n, "pi")]', fires=["C16"])
+    R("c16-rel-update-cached", S, '''        self._parents = self._get_parents()
+        self._childs = self._get_childs()
+        self._topo_nodes = self._get_topo_sort()''', '''        if getattr(self, "_nn", None) == self._g.num_nodes():
+            return
+        self._nn = self._g.num_nodes()
+        self._parents = self._get_parents()
+        self._childs = self._get_childs()
+        self._topo_nodes = self._get_topo_sort()''', fires=["C16"])
+    R("c16-relink-without-order-update", S, '''                    self._g.add_edge(parents[eidx][0], c, None)
+                    pn = [
+                        parents[eidx][0] if i == eidx else i
+                        for i in self._g.attrs["pnames"][c]
+                    ]
+                    self._g.attrs["pnames"][c] = list(dict.fromkeys(pn))''', '''                    self._g.add_edge(parents[eidx][0], c, None)''', fires=["C16"])
+    R("c16-order-dedup-by-set", S, '                    self._g.attrs["pnames"][c] = list(dict.fromkeys(pn))', '                    self._g.attrs["pnames"][c] = list(set(pn))', fires=["C16", "C05"])
+    R("c16-phases-value-in-wrong-column", S, '''                    if "pwr" in self._g[n]._params:
+                        rs += [""]
+                        ii += [""]
+                        if p == "N/A":
+                            pwr += [self._g[n]._params["pwr"]]''', '''                    if "pwr" in self._g[n]._params:
+                        rs += [""]
+                        pwr += [""]
+                        if p == "N/A":
+                            ii += [self._g[n]._params["pwr"]]''', fires=["C16"])
+
+
+_c16()
